@@ -7,4 +7,4 @@ for l in open(sys.argv[1]):
             sig[v['sig']]+=1; ex.setdefault(v['sig'],(v['detail'],r['index']))
     else:
         print({k:r.get(k) for k in ['runs','steps','nontrivial','inconclusive','inconclusive_why','wall_s']}); print(r['probes']); print(r['faults']); print(len(r['classes']))
-for s,c in sig.most_common(): print(c,s,'\n    ',ex[s][1],ex[s][0][:int(sys.argv[2]) if len(sys.argv)>2 else 400])
+for s,c in sig.most_common(): print(c,s,'\n    ',ex[s][1],ex[s][0].replace('\n',' ')[:int(sys.argv[2]) if len(sys.argv)>2 else 400])
